@@ -79,7 +79,7 @@ pub fn eval_case(case: &Case, st: &mut Stats) -> Vec<Fail> {
             Err(p) => fails.push(Fail::new(format!("panic|to_string|{}", panic_class(&p)), case.tree.show())),
             Ok(Err(e)) => {
                 fails.push(Fail::new(
-                    format!("no-longer-serialisable|{}", err_class(&format!("{:?}", e))),
+                    format!("no-longer-serialisable|{}|{}", err_class(&format!("{:?}", e)), why_inexpressible(&after)),
                     format!("{} (call on #{}) serialised as {:?} before; after deduplication {} fails with {:?}", case.tree.show(), case.target, tb, after.show(), e),
                 ));
             }
@@ -106,7 +106,7 @@ pub fn eval_case(case: &Case, st: &mut Stats) -> Vec<Fail> {
     }
     let again = read_ids(&xot, root, &mut tab);
     if again.canon_ids() != after.canon_ids() {
-        fails.push(Fail::new("second-call-removes", format!("{}: first call -> {}, second call -> {}", case.tree.show(), after.show(), again.show())));
+        fails.push(Fail::new(format!("second-call-removes|{}", second_removed_kind(&after, &again)), format!("{}: first call -> {}, second call -> {}", case.tree.show(), after.show(), again.show())));
     }
     fails
 }
@@ -183,4 +183,80 @@ pub fn run(tier: Tier) -> i32 {
         "layouts": tot,
     });
     ctx.finish(stats, cov, vec!["hash iteration order observed, not controlled".into()])
+}
+
+/// Why the first inexpressible name of `a` cannot be written: which declaration is left and what hides it.
+fn why_inexpressible(a: &A) -> &'static str {
+    // path of elements from the root to the element carrying the failing name
+    fn rec<'a>(a: &'a A, outer: &Scope, path: &mut Vec<&'a A>, out: &mut Option<(Vec<&'a A>, String, bool)>) {
+        if out.is_some() {
+            return;
+        }
+        if a.k == K::Elem {
+            path.push(a);
+            let s = enter(outer, a);
+            if !elem_expressible(&s, &a.ns) {
+                *out = Some((path.clone(), a.ns.clone(), false));
+            } else if let Some(at) = a.attrs.iter().find(|at| !attr_expressible(&s, &at.ns)) {
+                *out = Some((path.clone(), at.ns.clone(), true));
+            } else {
+                for c in &a.ch {
+                    rec(c, &s, path, out);
+                }
+            }
+            path.pop();
+        } else {
+            for c in &a.ch {
+                rec(c, outer, path, out);
+            }
+        }
+    }
+    let mut out = None;
+    rec(a, &base_scope(), &mut vec![], &mut out);
+    let Some((path, ns, is_attr)) = out else { return "expressible-by-the-model" };
+    if ns.is_empty() {
+        return "no-namespace-element-under-default";
+    }
+    // nearest remaining declaration of ns on the path
+    let mut found: Option<(usize, String)> = None;
+    for (i, e) in path.iter().enumerate().rev() {
+        if let Some(d) = e.nss.iter().find(|d| d.ns == ns) {
+            found = Some((i, d.name.clone()));
+            break;
+        }
+    }
+    let Some((i, q)) = found else { return "no-declaration-left" };
+    if is_attr && q.is_empty() {
+        return "attribute-left-with-the-default-declaration-only";
+    }
+    // who shadows q between i (exclusive) and the end (inclusive)?
+    for (j, e) in path.iter().enumerate().skip(i + 1) {
+        if e.nss.iter().any(|d| d.name == q) {
+            return if j == path.len() - 1 { "remaining-prefix-shadowed-on-the-element-itself" } else { "remaining-prefix-shadowed-on-the-path" };
+        }
+    }
+    if path[i].nss.iter().filter(|d| d.name == q).count() > 0 && i == path.len() - 1 {
+        return "other";
+    }
+    "other"
+}
+
+fn second_removed_kind(first: &A, second: &A) -> &'static str {
+    let (mut d1, mut d2) = (vec![], vec![]);
+    decls_by_element(first, &mut d1);
+    decls_by_element(second, &mut d2);
+    for ((_, a), (_, b)) in d1.iter().zip(d2.iter()) {
+        for d in a {
+            if !b.contains(d) {
+                return if d.1.is_empty() && d.2.is_empty() {
+                    "default-undeclaration"
+                } else if d.1.is_empty() {
+                    "default-declaration"
+                } else {
+                    "prefixed-declaration"
+                };
+            }
+        }
+    }
+    "nothing"
 }
